@@ -41,6 +41,8 @@ def gen_frame(rng, n=None, complete=True):
     df["cu"] = pd.Categorical(cat(LV["cu"]), categories=["m3", "m1", "m2"])
     df["co"] = pd.Categorical(cat(LV["co"]), categories=CO_ORDER, ordered=True)
     df["unused"] = [rng.randrange(0, 100) for _ in range(n)]
+    # a column no formula mentions, with missing values: must never matter (training or prediction)
+    df["unused_nan"] = [np.nan if rng.random() < 0.3 else 1.5 for _ in range(n)]
     return scramble_index(rng, df)
 
 
@@ -91,6 +93,17 @@ def gen_term(rng, max_arity=3, extra=False):
     return ":".join(atoms)
 
 
+COMPOSITES = ["{a}:({b} + {c})", "({a} + {b}):{c}", "{a}*({b} + {c})", "{a}/({b} + {c})", "({a} + {b} + {c})**2",
+              "{a}*{b}", "{a}/{b}", "({a} + {b})*{c}", "{a}:({n} + {b})", "({a} + {n}):{b}", "{a}*{n}"]
+
+
+def gen_composite(rng):
+    """terms produced by the distributive operators (each product must own its components)"""
+    cats = rng.sample(["f", "g", "h", "cu", "co", "C(k)"], 3)
+    num = rng.choice(["x", "z", "center(x)"])
+    return rng.choice(COMPOSITES).format(a=cats[0], b=cats[1], c=cats[2], n=num)
+
+
 def gen_group(rng):
     eff = rng.choice(["1", "x", "f", "x + f", "0 + f", "f:x", "z", "0 + x", "h", "center(x)",
                       "x + z", "C(k)", "1 + x"])
@@ -107,6 +120,8 @@ def gen_formula(rng, response=None, allow_group=True, max_terms=4, extra=False):
         t = gen_term(rng, extra=extra)
         if t not in terms:
             terms.append(t)
+    if rng.random() < 0.2:
+        terms = [gen_composite(rng)] + terms[:1]
     if allow_group and rng.random() < 0.45:
         terms.append(gen_group(rng))
         if rng.random() < 0.3:
@@ -186,8 +201,10 @@ def _labels(terms):
         return None
 
 
-def observe(formula, df, names, news=(), na_action="drop"):
-    """Run the implementation; returns (impl observation, driver request or None)."""
+def observe(formula, df, names, news=(), na_action="drop", disturb=None):
+    """Run the implementation; returns (impl observation, driver request or None).
+    `disturb`: another frame on which a second design with the SAME formula text is built before the
+    first design is looked at (designs must not share state through the formula text)."""
     import formulae
     from formulae.terms import Intercept
     try:
@@ -196,6 +213,11 @@ def observe(formula, df, names, news=(), na_action="drop"):
             ns = dict(names)
             ns.setdefault("np", np)
             dm = formulae.design_matrices(formula, df, na_action=na_action, extra_namespace=ns)
+            if disturb is not None:
+                try:
+                    formulae.design_matrices(formula, disturb, na_action=na_action, extra_namespace=ns)
+                except Exception:  # noqa
+                    pass
     except Exception as e:  # noqa
         return {"err": type(e).__name__, "msg": str(e)[:120]}, None
     obs = {"n": int(len(df))}
